@@ -180,6 +180,7 @@ func runLife(c *Ctx, sc lifeSc, seedLabel ...interface{}) (out lifeOutcome) {
 	}
 
 	var stuckUsers int
+	var numAtDisc int64
 	curNick := "me"
 	for cycle := 0; cycle < sc.Cycles; cycle++ {
 		last := cycle == sc.Cycles-1
@@ -257,6 +258,18 @@ func runLife(c *Ctx, sc lifeSc, seedLabel ...interface{}) (out lifeOutcome) {
 				healthy = false
 			}
 		}
+		if healthy && cycle > 0 {
+			// a fresh connection carries nothing over from the previous one
+			for _, l := range mc.Lines() {
+				if strings.HasPrefix(l, "OUTLINE ") {
+					add("C07", "stale-output-on-new-connection", fmt.Sprintf("cycle %d: line %q queued by a handler of the previous connection was written to the new server", cycle, l))
+					break
+				}
+			}
+			if n := atomic.LoadInt64(&numSeen); n != numAtDisc {
+				add("C07", "stale-input-on-new-connection", fmt.Sprintf("cycle %d: %d lines received on the previous connection were dispatched after the reconnect", cycle, n-numAtDisc))
+			}
+		}
 		if !healthy || !conn.Connected() || mc.Closed() {
 			ds := rig.ProveDead(WaitShort)
 			switch {
@@ -319,7 +332,9 @@ func runLife(c *Ctx, sc lifeSc, seedLabel ...interface{}) (out lifeOutcome) {
 			burstStop = make(chan struct{})
 			go func(stop chan struct{}) {
 				rr := rig.Rand("burst", sc.String(), cycle)
-				for {
+				// bounded: after ~0.5 s of bursts the server simply reads, so that this goroutine never stands
+				// in the way of a dead-state proof
+				for it := 0; it < 2000; it++ {
 					select {
 					case <-stop:
 						return
@@ -328,6 +343,7 @@ func runLife(c *Ctx, sc lifeSc, seedLabel ...interface{}) (out lifeOutcome) {
 					mc.Allow(1 + rr.Intn(20))
 					time.Sleep(time.Duration(50+rr.Intn(400)) * time.Microsecond)
 				}
+				mc.Resume()
 			}(burstStop)
 		}
 		gate = make(chan struct{})
@@ -523,7 +539,11 @@ func runLife(c *Ctx, sc lifeSc, seedLabel ...interface{}) (out lifeOutcome) {
 		}()
 		if !waitCh(done) {
 			openGate()
-			ds := rig.ProveDead(WaitShort)
+			ds := rig.ProveDeadOpt(WaitShort, rig.DeadOpt{TolerantPing: !mc.WriteFaultArmed()})
+			for try := 0; try < 40 && !ds.Dead && strings.HasPrefix(ds.Reason, "census changed"); try++ {
+				// a keep-alive tick fell between the two censuses: take them again
+				ds = rig.ProveDeadOpt(WaitShort, rig.DeadOpt{TolerantPing: !mc.WriteFaultArmed()})
+			}
 			if ds.Dead {
 				add("C07", "teardown-stuck|"+ds.Signature, fmt.Sprintf("cycle %d: disconnect never completed (Close returned / DISCONNECTED delivered); proven dead state: %s", cycle, ds.Signature))
 				out.Findings[len(out.Findings)-1].Dump = ds.Dump
@@ -541,6 +561,7 @@ func runLife(c *Ctx, sc lifeSc, seedLabel ...interface{}) (out lifeOutcome) {
 		if burstStop != nil {
 			close(burstStop)
 		}
+		numAtDisc = atomic.LoadInt64(&numSeen)
 		if blocked {
 			out.Nontrivial = true
 		}
@@ -714,6 +735,11 @@ func reportLife(c *Ctx, prop, gen string, idx int, sc lifeSc, o lifeOutcome) {
 	c.R.Count("connections", int64(o.Connections))
 	c.R.Count("events", int64(o.Events))
 	for _, f := range o.Findings {
+		if prop == "C06" && f.Prop == "C07" && strings.HasPrefix(f.Kind, "teardown-stuck|") {
+			// proven: this connection's DISCONNECTED can never fire any more — zero instead of exactly one
+			f = lifeFinding{Prop: "C06", Kind: "disconnected-never|" + strings.TrimPrefix(f.Kind, "teardown-stuck|"),
+				Detail: "an established connection ended but DISCONNECTED can never be delivered (proven dead state): " + f.Detail, Dump: f.Dump}
+		}
 		if f.Prop != prop {
 			c.R.Count("findings_for_"+f.Prop+"_seen_in_"+prop+"_scenarios", 1)
 			continue
